@@ -327,6 +327,46 @@ def rule_TUPLE(ctx):
                '(0 / 1) every quantile is truncated to an integer' % unparse(st)[:50])
 
 
+def rule_FIXED(ctx):
+    rid = 'D5'
+    ctx.rule(rid, 'fixed values need no free coordinate: the array a fixed parameter is broadcast '
+             'to takes its shape from the batch axes of the input (shape[:-1]), never from one '
+             'particular coordinate column - a declaration with no free parameter has none')
+    n = 0
+    for q in ('Prior.physical_to_dictionary', 'Prior.unit_to_physical',
+              'Prior.unit_to_dictionary'):
+        if not ctx.program.has_func(q):
+            continue
+        f = ctx.program.func(q)
+        cfg = cfg_of(f)
+        pts = [p for p in f.params if p != f.self_name]
+        if not pts:
+            continue
+        for st in walk_no_nested(f.node):
+            if not (isinstance(st, ast.Assign) and cfg.has(st)):
+                continue
+            nid = cfg.node_of(st).id
+            # the fixed-number branch: under isinstance(dist, numbers.Number) true, or after the
+            # distribution test failed
+            facts = [(t, tr) for _, t, tr in cfg.facts(nid)]
+            fixed = any('numbers.Number' in t and tr is True for t, tr in facts)
+            if not fixed:
+                continue
+            cols = [x for x in ast.walk(st.value) if isinstance(x, ast.Subscript) and
+                    isinstance(x.value, ast.Name) and x.value.id in pts and
+                    any(isinstance(e, ast.Constant) and isinstance(e.value, int)
+                        for e in (x.slice.elts if isinstance(x.slice, ast.Tuple) else [x.slice]))]
+            n += 1
+            ctx.ob(rid, '%s:fixed-value-shape' % q, not cols, f.where(st),
+                   'a fixed value is broadcast to the batch shape of the input' if not cols else
+                   '`%s` sizes a fixed parameter from coordinate column `%s`: a prior that '
+                   'declares only fixed numbers (and links to them) has dimensionality 0, its '
+                   'inputs have shape (0,) / (n, 0), and the dictionary transforms raise '
+                   'IndexError instead of returning the constants'
+                   % (unparse(st)[:60], unparse(cols[0])))
+    ctx.require(n >= 1, 'D5: fixed-number branch of the dictionary transform not found')
+
+
 def rule_PAIR(ctx):
     rid = 'L1p'
     ctx.rule(rid, 'keys/dists lockstep: every normal-exit path of add_parameter appends exactly '
@@ -504,6 +544,7 @@ def run(ctx):
     rule_ICDF(ctx)
     rule_RANGE(ctx)
     rule_TUPLE(ctx)
+    rule_FIXED(ctx)
     rule_A1(ctx)
     ctx.floor('T1', 3, 'rejection exits')
     ctx.floor('T7', 1, 'appends to the key list')
